@@ -814,38 +814,48 @@ func (r *readerRun) expectFor(acc []byte) ([]byte, bool) {
 // splitJoined recognises, in stream order, the expected message contents (each
 // followed by term) at the front of b; the unmatched tail must be a prefix of
 // some later message's content.
-func (r *readerRun) splitJoined(b, term []byte) (segs []int, rest int, restOK bool) {
-	segs = []int{}
+func (r *readerRun) splitJoined(b, term []byte) (segs [][]int, rest int, restOK bool) {
+	segs = [][]int{}
 	var starts []int
 	for s := range r.expect {
 		starts = append(starts, s)
 	}
 	sort.Ints(starts)
-	pos, last := 0, 0
-	for {
-		found := false
+	pos := 0
+	for pos < len(b) || len(segs) == 0 {
+		// the longest expected content found here followed by term; all starts with that very content are candidates
+		best := -1
 		for _, s := range starts {
-			if s <= last || r.expect[s] == nil {
+			e := r.expect[s]
+			if e == nil {
 				continue
 			}
-			e := r.expect[s]
 			if pos+len(e)+len(term) <= len(b) && bytes.Equal(b[pos:pos+len(e)], e) && bytes.Equal(b[pos+len(e):pos+len(e)+len(term)], term) {
-				segs = append(segs, s)
-				pos += len(e) + len(term)
-				last = s
-				found = true
-				break
+				if best < 0 || len(e) > len(r.expect[best]) {
+					best = s
+				}
 			}
 		}
-		if !found {
+		if best < 0 {
 			break
 		}
+		if len(r.expect[best])+len(term) == 0 {
+			break // empty message and empty terminator: leaves no trace in the output
+		}
+		cand := []int{}
+		for _, s := range starts {
+			if r.expect[s] != nil && bytes.Equal(r.expect[s], r.expect[best]) {
+				cand = append(cand, s)
+			}
+		}
+		segs = append(segs, cand)
+		pos += len(r.expect[best]) + len(term)
 	}
 	rest = len(b) - pos
 	restOK = rest == 0
 	if rest > 0 {
 		for _, s := range starts {
-			if s > last && r.expect[s] != nil && rest <= len(r.expect[s]) && bytes.Equal(r.expect[s][:rest], b[pos:]) {
+			if r.expect[s] != nil && rest <= len(r.expect[s]) && bytes.Equal(r.expect[s][:rest], b[pos:]) {
 				restOK = true
 			}
 		}
